@@ -17,6 +17,11 @@
 // syntactically broken JSON at that node) is POSTed => HTTP 400 and effect + GET configuration still those of
 // the last accepted tree; then the next tree replaces it (histories accepted, rejected*, accepted).
 // Additionally every proper prefix of every document with <= 2 nodes must be rejected by parse.FromJSON.
+//
+// Audit extensions (ext.go, AUDIT.md): the remaining registered filters (url.RegexFilter, header.RegexFilter,
+// port.Filter) in their own alphabets, flat groups over extreme int64 priorities and large widths, further rejection
+// variants (two / no modifier in a node object, JSON of the wrong type, near-miss scope strings), requests to the
+// endpoint that are not a complete POST (other methods, failing body readers), other spellings of a scope.
 package main
 
 import (
@@ -24,10 +29,12 @@ import (
 	"encoding/json"
 	"fmt"
 	"hash/fnv"
+	"io"
 	"net/http"
 	"net/http/httptest"
 	"net/url"
 	"os"
+	"regexp"
 	"runtime"
 	"runtime/debug"
 	"sort"
@@ -76,17 +83,29 @@ const (
 	fQS
 	fMethod
 	fCookie
+	// the remaining registered filters (audit extension): not in the property's anchor list, but the statement
+	// quantifies over "the registered groups, filters and modifiers" and each has its own copy of the wiring
+	fURLRegex    // url.RegexFilter: modifier + else, condition on the (exchange's) request URL
+	fHeaderRegex // header.RegexFilter: modifier only, condition on the (exchange's) REQUEST header for both kinds
+	fPort        // port.Filter: modifier only, condition on the port of the (exchange's) request URL
 	nFilters
 )
 
-var filterName = [nFilters]string{"url.Filter", "header.Filter", "querystring.Filter", "method.Filter", "cookie.Filter"}
+var filterName = [nFilters]string{"url.Filter", "header.Filter", "querystring.Filter", "method.Filter", "cookie.Filter",
+	"url.RegexFilter", "header.RegexFilter", "port.Filter"}
 var filterCond = [nFilters]string{
 	`"host":"h.example","path":"/hit"`,
 	`"name":"X-Cond","value":"yes"`,
 	`"name":"p","value":"1"`,
 	`"method":"POST"`,
 	`"name":"c","value":"1"`,
+	`"regex":"[?&]r=1(&|$)"`,
+	`"header":"X-Re","regex":"^ye+s$"`,
+	`"port":8080`,
 }
+
+// filterElse: the filter type takes an "else" branch
+var filterElse = [nFilters]bool{true, true, true, true, true, true, false, false}
 
 const (
 	scAbsent = iota
@@ -147,6 +166,7 @@ type alphabet struct {
 	probeSc  []int // scope variants of the probe leaf
 	errSc    []int // scope variants of the erroring leaf
 	extra    []int // further leaves (scope absent): kHostErr, kMarkH, kMarkU, kMarkS
+	extraSc  bool  // the further leaves additionally with every explicit scope their type implements
 	filters  []int
 	aggs     []bool
 	prios    []int
@@ -172,6 +192,24 @@ var (
 		describe: "small: scopes {absent,[response]} on fifo (aggregateErrors false/true), priority ({0,1}), header filter (modifier, modifier+else); probe and erroring leaf without scope"}
 )
 
+// extraScopes: the scope variants of a further leaf (only scopes its type implements: the others are rejection cases).
+func (a *alphabet) extraScopes(kind int) []int {
+	if !a.extraSc {
+		return []int{scAbsent}
+	}
+	out := []int{scAbsent, scNone}
+	if typeMask(kind)&reqBit != 0 {
+		out = append(out, scReq)
+	}
+	if typeMask(kind)&resBit != 0 {
+		out = append(out, scRes)
+	}
+	if typeMask(kind) == reqBit|resBit {
+		out = append(out, scBoth)
+	}
+	return out
+}
+
 // ---------------------------------------------------------------------------------------------------------
 // exhaustive generator: every tree with exactly n nodes. The tree handed to f is only valid during the call.
 // ---------------------------------------------------------------------------------------------------------
@@ -188,7 +226,9 @@ func (g *gen) trees(n int, f func(*node)) {
 			f(&node{Kind: kErr, Scope: sc})
 		}
 		for _, k := range a.extra {
-			f(&node{Kind: k})
+			for _, sc := range a.extraScopes(k) {
+				f(&node{Kind: k, Scope: sc})
+			}
 		}
 	}
 	for _, agg := range a.aggs {
@@ -230,7 +270,7 @@ func (g *gen) trees(n int, f func(*node)) {
 					f(nd)
 				})
 				two := make([]*node, 2)
-				for s := 1; s <= n-2; s++ {
+				for s := 1; s <= n-2 && filterElse[ft]; s++ {
 					g.trees(s, func(m *node) {
 						g.trees(n-1-s, func(e *node) {
 							two[0], two[1] = m, e
@@ -265,8 +305,19 @@ func (a *alphabet) count(maxN int) []int64 {
 		F[k] = make([]int64, maxN+1)
 	}
 	F[0][0] = 1
-	leaves := int64(len(a.probeSc) + len(a.errSc) + len(a.extra))
-	S, A, P, Fl := int64(len(a.scopes)), int64(len(a.aggs)), int64(len(a.prios)), int64(len(a.filters))
+	leaves := int64(len(a.probeSc) + len(a.errSc))
+	for _, k := range a.extra {
+		leaves += int64(len(a.extraScopes(k)))
+	}
+	S, A, P := int64(len(a.scopes)), int64(len(a.aggs)), int64(len(a.prios))
+	var FlElse, FlOnly int64 // filter types with / without an else branch
+	for _, ft := range a.filters {
+		if filterElse[ft] {
+			FlElse++
+		} else {
+			FlOnly++
+		}
+	}
 	for n := 1; n <= maxN; n++ {
 		var t int64
 		if n == 1 {
@@ -283,7 +334,7 @@ func (a *alphabet) count(maxN int) []int64 {
 			for s := 1; s <= n-2; s++ {
 				x += T[s] * T[n-1-s]
 			}
-			t += Fl * S * x
+			t += FlElse*S*x + FlOnly*S*T[n-1]
 		}
 		T[n] = t
 		// forests with n nodes in total (T[1..n] known now)
@@ -408,6 +459,8 @@ const (
 	mutName
 	mutScope
 	mutReplace
+	mutAgg  // the fifo group's aggregateErrors field replaced by text
+	mutPrio // the priority of the priority group's first child replaced by text
 )
 
 type mutation struct {
@@ -503,7 +556,9 @@ func (r *renderer) node(nd *node) {
 		r.field(&first, sc)
 	case kFifo:
 		r.field(&first, sc)
-		if nd.Agg {
+		if r.m.kind == mutAgg && r.m.at == nd.Pos {
+			r.field(&first, r.m.text)
+		} else if nd.Agg {
 			r.field(&first, `"aggregateErrors":true`)
 		} else if nd.Pos%2 == 1 {
 			r.field(&first, `"aggregateErrors":false`)
@@ -524,7 +579,11 @@ func (r *renderer) node(nd *node) {
 				r.b = append(r.b, ',')
 			}
 			r.b = append(r.b, `{"priority":`...)
-			r.b = strconv.AppendInt(r.b, int64(nd.Prio[i]), 10)
+			if r.m.kind == mutPrio && r.m.at == nd.Pos && i == 0 {
+				r.b = append(r.b, r.m.text...)
+			} else {
+				r.b = strconv.AppendInt(r.b, int64(nd.Prio[i]), 10)
+			}
 			r.b = append(r.b, `,"modifier":`...)
 			r.node(k)
 			r.b = append(r.b, '}')
@@ -596,12 +655,23 @@ func init() {
 }
 
 func buildRequest(c [nFilters]bool, flip bool) *http.Request {
-	path, q, meth := "/miss", "q=0&p=2", "GET"
+	path, q, meth, host, re := "/miss", "q=0&p=2", "GET", "h.example", "no"
 	if c[fURL] {
 		path = "/hit"
 	}
 	if c[fQS] {
 		q = "q=0&p=1"
+	}
+	if c[fURLRegex] {
+		q += "&r=1"
+	} else {
+		q += "&r=0"
+	}
+	if c[fPort] {
+		host = "h.example:8080" // false: no port in the URL (scheme http, i.e. the default port 80)
+	}
+	if c[fHeaderRegex] {
+		re = "yes" // not flipped: header.RegexFilter looks at the request header for requests AND responses
 	}
 	if c[fMethod] {
 		meth = "POST"
@@ -610,24 +680,27 @@ func buildRequest(c [nFilters]bool, flip bool) *http.Request {
 	if flip {
 		hv, cv = !hv, !cv
 	}
-	h := http.Header{"X-Cond": {"no"}, "Cookie": {"d=1; e=2"}}
+	h := http.Header{"X-Cond": {"no"}, "Cookie": {"d=1; e=2"}, "X-Re": {re}}
 	if hv {
 		h["X-Cond"] = []string{"yes"}
 	}
 	if cv {
 		h["Cookie"] = []string{"d=1; c=1"}
 	}
-	return &http.Request{Method: meth, URL: &url.URL{Scheme: "http", Host: "h.example", Path: path, RawQuery: q},
-		Proto: "HTTP/1.1", ProtoMajor: 1, ProtoMinor: 1, Host: "h.example", Header: h}
+	return &http.Request{Method: meth, URL: &url.URL{Scheme: "http", Host: host, Path: path, RawQuery: q},
+		Proto: "HTTP/1.1", ProtoMajor: 1, ProtoMinor: 1, Host: host, Header: h}
 }
 
 // A response message: url, query and method conditions refer to the exchange's request; header and cookie
 // conditions to the response's own header / Set-Cookie (the request of the exchange carries the opposite values,
 // so an implementation looking at the wrong message is caught).
 func buildResponse(c [nFilters]bool) *http.Response {
-	h := http.Header{"X-Cond": {"no"}, "Set-Cookie": {"d=1"}}
+	h := http.Header{"X-Cond": {"no"}, "Set-Cookie": {"d=1"}, "X-Re": {"yes"}}
 	if c[fHeader] {
 		h["X-Cond"] = []string{"yes"}
+	}
+	if c[fHeaderRegex] {
+		h["X-Re"] = []string{"no"} // the response's own header carries the opposite of the exchange's request header
 	}
 	if c[fCookie] {
 		h["Set-Cookie"] = []string{"d=1", "c=1; Path=/"}
@@ -754,7 +827,11 @@ func interp(nd *node, st *mstate) []int {
 			}
 		}
 	case kFilter:
-		if st.cond[nd.FType] {
+		holds := st.cond[nd.FType]
+		if nd.FType == fURL && st.cond[fPort] {
+			holds = false // the url.Filter condition names host "h.example"; the message's URL host is "h.example:8080"
+		}
+		if holds {
 			return interp(nd.Kids[0], st)
 		}
 		if len(nd.Kids) > 1 {
@@ -979,6 +1056,10 @@ func candidates(t *node) []*node {
 				i := i
 				anyPrio = true
 				edit(pos, func(y, _ *node, _ int) *node { y.Prio[i] = 0; return y })
+				for _, q := range simplerPrios(p) { // (only the extreme-value families have priorities beyond {0,1})
+					q := q
+					edit(pos, func(y, _ *node, _ int) *node { y.Prio[i] = q; return y })
+				}
 			}
 		}
 		if anyPrio {
@@ -1137,10 +1218,11 @@ func evalTree(root *node, c *counters, trackBehaviour bool) {
 // ---- part 2: handler ----
 
 type handlerWorker struct {
-	mod     *martianhttp.Modifier
-	seq     int
-	prevDoc string
-	c       *counters
+	extended bool // audit extension: the additional rejection variants and the non-POST / failing-body requests
+	mod      *martianhttp.Modifier
+	seq      int
+	prevDoc  string
+	c        *counters
 }
 
 func (w *handlerWorker) post(doc []byte) (code int, pan string) {
@@ -1205,7 +1287,10 @@ func blame(root *node, rc rejectCase) string {
 			continue
 		}
 		if i == len(path)-1 {
-			name := string(doc[2 : 2+bytes.IndexByte(doc[2:], '"')])
+			name := "value"
+			if len(doc) > 2 && doc[1] == '"' && bytes.IndexByte(doc[2:], '"') >= 0 {
+				name = string(doc[2 : 2+bytes.IndexByte(doc[2:], '"')])
+			}
 			return "self:" + name
 		}
 		name := strings.TrimSuffix(kindName(path[i]), "+agg")
@@ -1274,7 +1359,7 @@ func flushAccepted() {
 	}
 }
 
-func rejectCases(root *node) []rejectCase {
+func rejectCases(root *node, extended bool) []rejectCase {
 	var out []rejectCase
 	n := number(root, 100)
 	base := render(root, mutation{}) // fills start/end
@@ -1299,6 +1384,9 @@ func rejectCases(root *node) []rejectCase {
 		}
 		s, e := spans[pos].s, spans[pos].e
 		cat := func(parts ...[]byte) []byte { return bytes.Join(parts, nil) }
+		if extended {
+			out = append(out, extendedRejects(root, pos, base[s:e])...)
+		}
 		out = append(out,
 			rejectCase{"malformed_truncated", pos, cat(base[:s+1]), mutation{}},
 			rejectCase{"malformed_truncated", pos, cat(base[:(s+e)/2]), mutation{}},
@@ -1355,7 +1443,7 @@ func (w *handlerWorker) tree(root *node) {
 	for i, m := range red {
 		exps[i] = observe(w.mod, w.mod, m, &c.calls)
 	}
-	for _, rc := range rejectCases(root) { // renumbers root with base 100
+	for _, rc := range rejectCases(root, w.extended) { // renumbers root with base 100
 		c.rejects++
 		code, pan := w.post(rc.doc)
 		if pan != "" {
@@ -1395,6 +1483,9 @@ func (w *handlerWorker) tree(root *node) {
 			w.post(doc)
 		}
 	}
+	if w.extended {
+		w.others(doc, red, exps, activeRaw)
+	}
 	w.prevDoc = string(doc)
 }
 
@@ -1422,6 +1513,7 @@ type phase struct {
 	part  string // eval | handler | prefix
 	a     *alphabet
 	sizes []int
+	ext   bool // handler: with the extended rejection variants and the non-POST / failing-body requests
 }
 
 func runPhase(p phase, total *counters, mu *sync.Mutex, genCounts map[string]int64) {
@@ -1434,7 +1526,7 @@ func runPhase(p phase, total *counters, mu *sync.Mutex, genCounts map[string]int
 			go func(w int) {
 				defer wg.Done()
 				c := &counters{behaviours: map[uint64]struct{}{}}
-				hw := &handlerWorker{mod: martianhttp.NewModifier(), c: c}
+				hw := &handlerWorker{mod: martianhttp.NewModifier(), c: c, extended: p.ext}
 				g := &gen{a: p.a}
 				idx := 0
 				g.trees(n, func(t *node) {
@@ -1450,6 +1542,8 @@ func runPhase(p phase, total *counters, mu *sync.Mutex, genCounts map[string]int
 						hw.tree(t)
 					case "prefix":
 						prefixTree(t, c)
+					case "spell":
+						spellTree(t, c)
 					}
 				})
 				mu.Lock()
@@ -1516,13 +1610,18 @@ func doReplay(path string) {
 	}
 	m := martianhttp.NewModifier()
 	last := 0
-	for _, d := range []string{rp.Previous, rp.Config} {
+	for i, d := range []string{rp.Previous, rp.Config} {
 		if d == "" {
 			continue
 		}
 		rw := httptest.NewRecorder()
-		m.ServeHTTP(rw, httptest.NewRequest("POST", "http://martian.proxy/configure", strings.NewReader(d)))
-		fmt.Printf("POST %s\n  -> %d %s\n", d, rw.Code, strings.TrimSpace(rw.Body.String()))
+		method, body := "POST", io.Reader(strings.NewReader(d))
+		if i == 1 && (strings.HasPrefix(rp.Note, "method_") || strings.HasPrefix(rp.Note, "body_read_error")) {
+			method, body = otherRequest(rp.Note) // audit family D: not a complete POST
+			d += " (" + rp.Note + ")"
+		}
+		m.ServeHTTP(rw, httptest.NewRequest(method, "http://martian.proxy/configure", body))
+		fmt.Printf("%s %s\n  -> %d %s\n", method, d, rw.Code, strings.TrimSpace(rw.Body.String()))
 		last = rw.Code
 	}
 	if rp.Part == "reject" && last == 200 {
@@ -1565,41 +1664,85 @@ func main() {
 	if p := os.Getenv("VERIF_REPLAY"); p != "" {
 		doReplay(p)
 	}
+	if len(os.Args) > 1 && os.Args[1] == "counts" {
+		for _, a := range []*alphabet{alphaFull, alphaMid, alphaSmall, alphaTiny, alphaExt, alphaExtMid} {
+			fmt.Println(a.name, a.count(6)[1:])
+		}
+		return
+	}
 	rep = lib.NewReport("C12", "model_checking")
 	var phases []phase
+	var families []family
 	bounds := ""
 	if rep.Tier == "thorough" {
 		phases = []phase{
-			{"eval", alphaFull, []int{1, 2, 3, 4}},
-			{"eval", alphaMid, []int{5}},
-			{"eval", alphaTiny, []int{6}},
-			{"prefix", alphaFull, []int{1, 2}},
-			{"handler", alphaFull, []int{1, 2, 3}},
-			{"handler", alphaSmall, []int{4}},
+			{"eval", alphaFull, []int{1, 2, 3, 4}, false},
+			{"eval", alphaMid, []int{5}, false},
+			{"eval", alphaTiny, []int{6}, false},
+			{"prefix", alphaFull, []int{1, 2}, false},
+			{"handler", alphaFull, []int{1, 2}, true},
+			{"handler", alphaFull, []int{3}, false},
+			{"handler", alphaSmall, []int{4}, false},
+			{"handler", alphaMid, []int{3}, true},
+			{"eval", alphaExt, []int{1, 2, 3}, false},
+			{"eval", alphaExtMid, []int{4}, false},
+			{"prefix", alphaExt, []int{1, 2}, false},
+			{"handler", alphaExt, []int{1, 2}, true},
+			{"handler", alphaExtMid, []int{3}, true},
+			{"spell", alphaFull, []int{1, 2, 3}, false},
+			{"spell", alphaExt, []int{1, 2}, false},
 		}
-		bounds = "evaluation: all trees with <=4 nodes over the full alphabet, all trees with exactly 5 nodes over the mid alphabet, exactly 6 nodes over the tiny alphabet (each reduced alphabet is a subset of the next larger one, so their smaller sizes are already covered); rejection/reconfiguration through the handler: full alphabet <=3 nodes, small alphabet 4 nodes; all document prefixes for <=2 nodes"
+		families = []family{prioValues("prio_values", extremePrios, 4, true), prioValues("prio_values_probes", extremePrios, 5, false), prioWide(8), fifoWide(12)}
+		bounds = "evaluation: all trees with <=4 nodes over the full alphabet, all trees with exactly 5 nodes over the mid alphabet, exactly 6 nodes over the tiny alphabet (each reduced alphabet is a subset of the next larger one, so their smaller sizes are already covered); rejection/reconfiguration through the handler: full alphabet <=3 nodes, small alphabet 4 nodes; all document prefixes for <=2 nodes" +
+			"; audit extensions: evaluation of all trees with <=3 nodes over the ext alphabet and exactly 4 nodes over the extmid alphabet (remaining registered filters), flat priority groups with <=4 children (probe or erroring leaf) and <=5 children (probes) over 8 extreme int64 priorities, flat priority groups of width <=8 over 3 levels, flat fifo groups of width <=12; handler: ext alphabet <=2 nodes, extmid 3 nodes; scope spellings (null for absent, duplicated entries) at every node of full <=3 and ext <=2; the extended rejection variants and the non-POST / failing-body requests on full <=2, mid 3, ext <=2, extmid 3; prefixes of ext documents with <=2 nodes"
 	} else {
 		phases = []phase{
-			{"eval", alphaFull, []int{1, 2, 3}},
-			{"eval", alphaMid, []int{4}},
-			{"eval", alphaSmall, []int{5}},
-			{"prefix", alphaFull, []int{1, 2}},
-			{"handler", alphaFull, []int{1, 2}},
-			{"handler", alphaMid, []int{3}},
+			{"eval", alphaFull, []int{1, 2, 3}, false},
+			{"eval", alphaMid, []int{4}, false},
+			{"eval", alphaSmall, []int{5}, false},
+			{"prefix", alphaFull, []int{1, 2}, false},
+			{"handler", alphaFull, []int{1, 2}, true},
+			{"handler", alphaMid, []int{3}, false},
+			{"eval", alphaExt, []int{1, 2, 3}, false},
+			{"handler", alphaExt, []int{1}, true},
+			{"handler", alphaExtMid, []int{2}, true},
+			{"spell", alphaFull, []int{1, 2}, false},
+			{"spell", alphaMid, []int{3}, false},
 		}
-		bounds = "evaluation: all trees with <=3 nodes over the full alphabet, exactly 4 nodes over the mid alphabet and exactly 5 nodes over the small alphabet (each reduced alphabet is a subset of the next larger one); rejection/reconfiguration through the handler: full alphabet <=2 nodes, mid alphabet 3 nodes; all document prefixes for <=2 nodes"
+		families = []family{prioValues("prio_values", extremePrios, 3, true), prioWide(6), fifoWide(9)}
+		bounds = "evaluation: all trees with <=3 nodes over the full alphabet, exactly 4 nodes over the mid alphabet and exactly 5 nodes over the small alphabet (each reduced alphabet is a subset of the next larger one); rejection/reconfiguration through the handler: full alphabet <=2 nodes, mid alphabet 3 nodes; all document prefixes for <=2 nodes" +
+			"; audit extensions: evaluation of all trees with <=3 nodes over the ext alphabet (remaining registered filters), flat priority groups with <=3 children over 8 extreme int64 priorities, flat priority groups of width <=6 over 3 levels, flat fifo groups of width <=9; handler: ext alphabet 1 node, extmid 2 nodes; scope spellings (null for absent, duplicated entries) at every node of full <=2 and mid 3; the extended rejection variants and the non-POST / failing-body requests on full <=2, ext 1, extmid 2"
 	}
 	total := &counters{behaviours: map[uint64]struct{}{}, perPhase: map[string]int64{}}
 	var mu sync.Mutex
 	genCounts := map[string]int64{}
+	// development aid (mutant triage): VERIF_C12_PHASES=<regexp> runs only the phases / flat families whose key
+	// ("eval:full", "handler:ext", "eval:flat:prio_wide", ...) matches; the run is then marked incomplete
+	only := func(key string) bool { return true }
+	if pat := os.Getenv("VERIF_C12_PHASES"); pat != "" {
+		re := regexp.MustCompile(pat)
+		only = re.MatchString
+		rep.Incomplete = "restricted to phases matching " + pat
+	}
 	for _, p := range phases {
+		if !only(p.part + ":" + p.a.name) {
+			continue
+		}
 		t0, c0 := time.Now(), cpuSeconds()
 		runPhase(p, total, &mu, genCounts)
 		phaseCost = append(phaseCost, fmt.Sprintf("%s:%s:%v wall=%.1fs cpu=%.1fs", p.part, p.a.name, p.sizes, time.Since(t0).Seconds(), cpuSeconds()-c0))
 	}
+	for _, fam := range families {
+		if !only("eval:flat:" + fam.name) {
+			continue
+		}
+		t0, c0 := time.Now(), cpuSeconds()
+		runFamily(fam, total, &mu, genCounts)
+		phaseCost = append(phaseCost, fmt.Sprintf("eval:flat:%s wall=%.1fs cpu=%.1fs", fam.name, time.Since(t0).Seconds(), cpuSeconds()-c0))
+	}
 	rep.Coverage["phase_cost"] = phaseCost
 	flushAccepted()
-	if total.unclassified > 0 {
+	if total.unclassified > 0 && rep.Incomplete == "" {
 		rep.Incomplete = fmt.Sprintf("more than %d failing trees: %d further failing trees were counted but not minimised/classified", maxMinimised, total.unclassified)
 	}
 	var handlerTrees int64
@@ -1624,13 +1767,22 @@ func main() {
 	rep.Coverage["rule"] = "every tree with exactly n nodes of the stated alphabet is generated (generator count cross-checked against a closed-form count), rendered to JSON, parsed by parse.FromJSON and run on both message kinds x every truth assignment of the filter conditions occurring in it; a tree is non-trivial when it has >=2 nodes, its expected outcome is non-empty for some message and differs between messages (kind or condition dependent)"
 	rep.Coverage["exhaustive"] = true
 	rep.Coverage["bounds"] = bounds
-	rep.Coverage["alphabets"] = []string{alphaFull.describe, alphaMid.describe, alphaSmall.describe, alphaTiny.describe}
+	alphas := []string{alphaFull.describe, alphaMid.describe, alphaSmall.describe, alphaTiny.describe, alphaExt.describe, alphaExtMid.describe}
+	for _, fam := range families {
+		alphas = append(alphas, fam.describe)
+	}
+	rep.Coverage["alphabets"] = alphas
+	rep.Coverage["rejection_variants"] = "per node: unknown name, 3 unsupported scope lists, 4 unimplemented-scope leaves, 5 syntactic breakages; extended (see bounds): an unknown / a second known modifier next to the node's own key in both orders, {}, 5-6 JSON values of the wrong type in place of the node, 6 near-miss scope strings, 5 scope values of the wrong type, 3 aggregateErrors and 5 priority values of the wrong type; per accepted configuration (extended): PUT/DELETE/PATCH/HEAD/OPTIONS carrying a valid configuration and POST bodies whose reader fails after 0, 1, half, all but one and all bytes"
 	rep.Assumptions = []string{
 		"an absent scope means every message kind the node type implements; \"scope\":[] names no kind, so the node never acts",
 		"for a response, the url, querystring and method conditions refer to the request of the exchange, the header and cookie conditions to the response's own header / Set-Cookie",
+		"url.RegexFilter and port.Filter conditions refer to the URL of the (exchange's) request; header.RegexFilter's condition refers to the header of the exchange's REQUEST for requests and responses alike (its documentation says so); header.RegexFilter and port.Filter take no else branch (none is generated for them)",
+		"\"scope\":null means the same as an absent scope; a scope list that repeats a kind names that kind once",
+		"a node object names exactly one modifier (the single-key rule of parse.FromJSON): two keys, no key, or a JSON value that is not an object count as malformed; scope names are exactly the lower-case strings \"request\" and \"response\"; a priority is a JSON integer in the int64 range; aggregateErrors is a JSON boolean",
+		"a request to the configuration endpoint that is answered with a non-2xx status is a rejected reconfiguration (nothing may change); one answered 2xx must put the configuration it carries fully in force; a POST whose body could not be read to the end can never be accepted",
 		"errors are identified by their text (the erroring leaf's text carries its node id); a MultiError is read through Errors(), nested ones recursively",
 		"leaf behaviour (header append on X-Trace/X-Cond, Content-Length and Host special cases, url.Modifier, status.Modifier) is taken as given; the property under test is the composition",
-		"rejection cases are limited to unknown names, scope strings outside {request,response}, scopes a node type does not implement and syntactically invalid JSON; well-formed JSON of the wrong type is not examined",
+		"rejection cases: unknown names, scope strings outside {request,response}, scopes a node type does not implement, syntactically invalid JSON and (audit extension) the wrong-type / two-key variants listed under rejection_variants; wrong types of the filters' own condition fields and \"else\":null are not examined",
 	}
 	rep.Finish()
 }
